@@ -222,7 +222,6 @@ func trueSyncPos(a *aacasc.ASC) int {
 }
 
 const sigSyncScan = "asc-sync-scan-before-specific-config"
-const sigSDPChannels = "sdp-aac-rtpmap-default-channels"
 
 func TestAACConfigRoundTrip(t *testing.T) {
 	t.Parallel()
@@ -264,10 +263,6 @@ func TestAACConfigRoundTrip(t *testing.T) {
 		// rate = sampling rate, encoding parameter = number of channels, omitted
 		// only for mono as RFC 4566 6 allows)
 		omit := omitCh && want.Channels == 1
-		if omit && evid.Known(sigSDPChannels) {
-			evid.Excluded(sigSDPChannels)
-			omit = false
-		}
 		if omit {
 			evid.Class("aac/sdp-rtpmap-without-channels(mono)")
 		}
